@@ -7,8 +7,15 @@ CONSTANTS MaxLen
 VARIABLE s
 
 Alphabet == {C("a"), C("z"), C("A"), C("Z"), C("!"), C("."), C("/"), C("1"), C("-"), C("+"), 233, 32}
+\* a vocabulary of words whose validity depends on letter case (reserved Windows names, short-name suffixes),
+\* alone and in pairs, bare and in escaped form
+Frag == {S("con"), S("CON"), S("Con"), S("nul"), S("NUL"), S("com1"), S("COM1"), S("Com1"), S("lpt9"), S("LPT9"), S("aux"), S("AUX"),
+         S("v1.0.0"), S("a"), S("A"), S("a~1"), S("A~1")}
+Words == Frag \cup {f \o <<sep>> \o g : f \in Frag, g \in Frag, sep \in {cDot, cSlash, C("-")}}
+Vocab == Words \cup {Esc(w) : w \in Words}
 Init == s = <<>>
-Next == Len(s) < MaxLen /\ \E c \in Alphabet : s' = Append(s, c)
+Next == \/ Len(s) < MaxLen /\ \E c \in Alphabet : s' = Append(s, c)
+        \/ s = <<>> /\ s' \in Vocab
 Pre == S("x.y/")
 Laws == EscapeLaws(s) /\ EscapeLaws(Pre \o s)
 Emit == /\ PrintT(ToJson([w |-> "modpath", k |-> "esc", in |-> [s |-> s], exp |-> ExpEscape(s)]))
